@@ -62,7 +62,7 @@ def judge(prog, ctx, util, rule_prefix=""):
             ctx.fail(rule_prefix + "B2", inst, s.alloc.where, "exact-fit buffer too small: " + s.why, key="fit:" + s.key)
         else:
             ctx.inconclusive(rule_prefix + "B2", inst, s.alloc.where, s.why)
-    copies = buf.analyse_heap_copies(prog, util)
+    copies = buf.analyse_heap_copies(prog, util) + buf.analyse_grown_buffers(prog, util)
     for h in copies:
         ctx.touch(h.fn)
         inst = "%s: %s(<heap>, %s)" % (h.fn.name, h.call.j.get("callee"), h.src)
@@ -169,7 +169,64 @@ def b6_stack_copies(prog, ctx):
         ctx.ok("B6", "no stack allocation inside a loop in lib/", "", "")
 
 
+CREATORS = {"fopen": 0, "fopen64": 0, "open": 0, "open64": 0, "creat": 0, "mkstemp": 0, "mkostemp": 0, "mkstemps": 0, "mkdtemp": 0,
+            "openat": 1, "rename": 1, "link": 1, "symlink": 1, "mkdir": 0, "freopen": 0}
+
+
+def b7_created_names(prog, ctx):
+    """B7: a file or directory name up to the OS limit is written under that name: no routine of the library creates a file whose
+    last path component is a caller-supplied name made longer (name + ".tmp", name + ".XXXXXX"): NAME_MAX applies to the
+    component, so a legal name within a few bytes of the limit could no longer be written."""
+    import re as _re
+    from sa.dataflow import ReachingDefs
+    n = 0
+    for f in prog.lib_functions():
+        cs = [c for c in f.calls(tuple(CREATORS))]
+        if not cs:
+            continue
+        rd = ReachingDefs(f)
+        for c in cs:
+            a = c.call_args()
+            pi = CREATORS[c.j.get("callee")]
+            if pi >= len(a):
+                continue
+            if c.j.get("callee") in ("fopen", "fopen64", "freopen"):
+                mode = a[1].string_value() if len(a) > 1 else None
+                if mode is not None and mode.startswith("r") and "+" not in mode:
+                    continue          # opens an existing file
+            if c.j.get("callee") in ("open", "open64") and len(a) > 1 and a[1].const_value() is not None and not (a[1].const_value() & 0o100):
+                continue              # no O_CREAT
+            n += 1
+            pa = a[pi].strip()
+            fmts = []
+            if pa.k == "DeclRefExpr":
+                # the text of the name: asprintf(&p, fmt, ..) / snprintf(p, n, fmt, ..) that define it
+                for c2 in f.calls(("asprintf", "snprintf", "sprintf")):
+                    a2 = c2.call_args()
+                    dst = render(a2[0]).lstrip("&") if a2 else ""
+                    if dst == render(pa):
+                        fi = {"asprintf": 1, "snprintf": 2, "sprintf": 1}[c2.j.get("callee")]
+                        if fi < len(a2) and a2[fi].string_value() is not None:
+                            fmts.append((c2, a2[fi].string_value(), a2[fi + 1:]))
+            longer = None
+            for c2, fmt, rest in fmts:
+                last = fmt.rsplit("/", 1)[-1]
+                convs = _re.findall(r"%[-0-9.*]*[a-zA-Z]", last)
+                lit = _re.sub(r"%[-0-9.*]*[a-zA-Z]", "", last)
+                if any(x.endswith("s") for x in convs) and lit:
+                    longer = (c2, fmt, lit)
+            if longer:
+                ctx.fail("B7", "%s creates files under the name given" % f.name, c.where,
+                         "%s(%s): the name is built with \"%s\" - the last component is a name from the caller plus %d more bytes (%r): a legal name "
+                         "within %d bytes of NAME_MAX cannot be written any more" % (c.j.get("callee"), render(pa), longer[1], len(longer[2]), longer[2], len(longer[2])),
+                         key="longer-name:%s:%s" % (f.name, c.j.get("callee")))
+            else:
+                ctx.ok("B7", "%s creates files under the name given" % f.name, c.where, "%s(%s): no text is added to the last component" % (c.j.get("callee"), render(pa)))
+    ctx.floor("C14 file-creating calls", n, 1)
+
+
 def run(prog, ctx):
+    b7_created_names(prog, ctx)
     la, ls, lf = judge(prog, ctx, False)
     ua, us, uf = judge(prog, ctx, True)
     b4_bounded_compares(prog, ctx)
